@@ -94,7 +94,7 @@ func c24merge(c *rig.Ctx) {
 		"A case is distinct/non-trivial when the merge kept at least one violating row, by the set of (kind:constraint) violated")
 	srv, stop := startServer(c, "c24m")
 	defer stop()
-	n := c.Pick(40, 1500)
+	n := c.Pick(32, 400)
 	stats := &c24MergeStats{m: map[string]int{}}
 	const par = 6
 	var wg sync.WaitGroup
@@ -109,7 +109,7 @@ func c24merge(c *rig.Ctx) {
 			}
 		}()
 	}
-	for i := 0; i < n && c.Violations() <= 20; i++ {
+	for i := 0; i < n && distinctViolationKeys() <= 8; i++ {
 		mc := genC24MergeCase(c, i)
 		c.Case(fmt.Sprintf("c24/merges/%d", i), map[string]any{"db": mc.DB, "left": mc.Left, "right": mc.Right})
 		if i < 2 {
@@ -130,6 +130,7 @@ func c24merge(c *rig.Ctx) {
 	c.Require(m["listed:not-null"] > 0, "merges did not produce a NOT NULL violation")
 	c.Require(m["unforced_commit_rejected"] > 0 && m["forced_commits"] > 0, "unforced rejection / forced commit not exercised")
 	c.Require(m["cherry_picks_acknowledged"] > 0, "no cherry-pick was acknowledged")
+	countReported(c, "c24")
 	scanOwnRaceReports(c, "C24", c24RaceFuncs)
 }
 
@@ -182,7 +183,7 @@ func runC24MergeCase(c *rig.Ctx, srv *sqlrig.Server, mc *c24MergeCase, stats *c2
 	rig.Must(ev.Exec("set autocommit = 0"))
 	for _, br := range []string{"main", "other"} {
 		if s, err := evalState(ev, fmt.Sprintf("`%s/%s`.", mc.DB, br), true, true); err == nil && len(s.Viol) > 0 {
-			c.Violation("c24/merge/side-not-clean/"+kindsOf(s.Viol), "a branch built only from statements accepted by a default session violates a constraint before any merge",
+			report(c, "c24/merge/side-not-clean/"+kindsOf(s.Viol), "a branch built only from statements accepted by a default session violates a constraint before any merge",
 				map[string]any{"script": script, "branch": br, "violating_rows": s.Viol, "state": s.dump()})
 			return
 		}
@@ -218,7 +219,7 @@ func runC24MergeCase(c *rig.Ctx, srv *sqlrig.Server, mc *c24MergeCase, stats *c2
 		}
 		if u := s.unlisted(); len(u) > 0 {
 			kinds := kindsOf(u)
-			c.Violation("c24/merge/unlisted/"+kinds, fmt.Sprintf("dolt_merge (%s) was acknowledged and keeps %d violating rows (%s) that dolt_constraint_violations_<t> does not list", dir, len(u), kinds),
+			report(c, "c24/merge/unlisted/"+kinds, fmt.Sprintf("dolt_merge (%s) was acknowledged and keeps %d violating rows (%s) that dolt_constraint_violations_<t> does not list", dir, len(u), kinds),
 				map[string]any{"script": script, "direction": dir, "violating_rows": u, "state": s.dump()})
 		}
 		// one-sided inserts are kept or listed, never silently dropped
@@ -256,7 +257,7 @@ func runC24MergeCase(c *rig.Ctx, srv *sqlrig.Server, mc *c24MergeCase, stats *c2
 				lt = listedTags(sess, prefix)
 			}
 			if !lt[t] {
-				c.Violation("c24/merge/row-silently-dropped", fmt.Sprintf("dolt_merge (%s) was acknowledged; the row tagged %s inserted on one side only is neither in the merged table nor listed in dolt_constraint_violations_child", dir, t),
+				report(c, "c24/merge/row-silently-dropped", fmt.Sprintf("dolt_merge (%s) was acknowledged; the row tagged %s inserted on one side only is neither in the merged table nor listed in dolt_constraint_violations_child", dir, t),
 					map[string]any{"script": script, "direction": dir, "state": s.dump()})
 			} else {
 				stats.add("one_sided_rows_dropped_but_listed", 1)
@@ -289,7 +290,7 @@ func runC24MergeCase(c *rig.Ctx, srv *sqlrig.Server, mc *c24MergeCase, stats *c2
 			}
 		}
 		if s, e := evalState(ev, fmt.Sprintf("`%s/main`.", mc.DB), true, true); e == nil && len(s.Viol) > 0 {
-			c.Violation("c24/merge/committed-state-violates/"+kindsOf(s.Viol), fmt.Sprintf("after dolt_merge + COMMIT by a default session (commit error: %v) the committed working set of main holds violating rows", cerr),
+			report(c, "c24/merge/committed-state-violates/"+kindsOf(s.Viol), fmt.Sprintf("after dolt_merge + COMMIT by a default session (commit error: %v) the committed working set of main holds violating rows", cerr),
 				map[string]any{"script": script, "violating_rows": s.Viol, "state": s.dump()})
 		}
 	}
@@ -322,7 +323,7 @@ func runC24MergeCase(c *rig.Ctx, srv *sqlrig.Server, mc *c24MergeCase, stats *c2
 			stats.add("forced_commits", 1)
 			if s, e := evalState(ev, fmt.Sprintf("`%s/f2`.", mc.DB), true, true); e == nil {
 				if u := s.unlisted(); len(u) > 0 {
-					c.Violation("c24/merge/forced-commit-unlisted/"+kindsOf(u), "after a forced COMMIT of a merge the committed working set holds violating rows that are not listed",
+					report(c, "c24/merge/forced-commit-unlisted/"+kindsOf(u), "after a forced COMMIT of a merge the committed working set holds violating rows that are not listed",
 						map[string]any{"script": script, "violating_rows": u, "state": s.dump()})
 				}
 			}
@@ -332,7 +333,7 @@ func runC24MergeCase(c *rig.Ctx, srv *sqlrig.Server, mc *c24MergeCase, stats *c2
 				if s, e := evalState(ev, fmt.Sprintf("`%s/%s`.", mc.DB, h), true, true); e == nil {
 					stats.add("dolt_commits_evaluated", 1)
 					if u := s.unlisted(); len(u) > 0 {
-						c.Violation("c24/merge/forced-dolt-commit-unlisted/"+kindsOf(u), "a Dolt commit made with --force holds violating rows that its dolt_constraint_violations does not list",
+						report(c, "c24/merge/forced-dolt-commit-unlisted/"+kindsOf(u), "a Dolt commit made with --force holds violating rows that its dolt_constraint_violations does not list",
 							map[string]any{"script": script, "commit": h, "violating_rows": u, "state": s.dump()})
 					}
 				} else {
@@ -355,7 +356,7 @@ func runC24MergeCase(c *rig.Ctx, srv *sqlrig.Server, mc *c24MergeCase, stats *c2
 			if s, e := evalState(ev, pfx, true, true); e == nil {
 				stats.add("cherry_pick_states_evaluated", 1)
 				if u := s.unlisted(); len(u) > 0 {
-					c.Violation("c24/cherry-pick/unlisted/"+kindsOf(u), fmt.Sprintf("after dolt_cherry_pick (error: %v) the committed working set holds violating rows that are not listed", err),
+					report(c, "c24/cherry-pick/unlisted/"+kindsOf(u), fmt.Sprintf("after dolt_cherry_pick (error: %v) the committed working set holds violating rows that are not listed", err),
 						map[string]any{"script": script, "violating_rows": u, "state": s.dump()})
 				}
 			}
@@ -365,7 +366,7 @@ func runC24MergeCase(c *rig.Ctx, srv *sqlrig.Server, mc *c24MergeCase, stats *c2
 				if s, e := evalState(ev, fmt.Sprintf("`%s/%s`.", mc.DB, h), true, true); e == nil {
 					stats.add("dolt_commits_evaluated", 1)
 					if len(s.Viol) > 0 {
-						c.Violation("c24/cherry-pick/commit-violates/"+kindsOf(s.Viol), "dolt_cherry_pick by a default session was acknowledged and its commit holds violating rows",
+						report(c, "c24/cherry-pick/commit-violates/"+kindsOf(s.Viol), "dolt_cherry_pick by a default session was acknowledged and its commit holds violating rows",
 							map[string]any{"script": script, "commit": h, "violating_rows": s.Viol, "state": s.dump()})
 					}
 				}
